@@ -221,6 +221,29 @@ pub fn run(a: &Args) -> i32 {
             emit(kind, scenario, segs, interrupted, json!({"bytes": bytes.len(), "first_response_len": first}), &mut out);
         }
     }
+    // a stalled reader and many SMALL responses (each fits any internal write buffer): the write that finally times out
+    // must end the connection too; nothing may follow the partial frame
+    for kind in ["server", "async_server"] {
+        for len in [4000usize, 7000] {
+            let (addr, _keep) = start_tcp_server(kind, Some(Duration::from_millis(60)), &rt);
+            let mut s = TcpStream::connect(addr).unwrap();
+            s.set_nodelay(true).ok();
+            let n = (10usize << 20) / (len + 60);
+            let mut w = s.try_clone().unwrap();
+            let sender = std::thread::spawn(move || {
+                for i in 1..=n as u64 { if w.write_all(&req_frame(i, "/big", json!({"len": len, "key": i}))).is_err() { break; } }
+            });
+            std::thread::sleep(Duration::from_millis(700));
+            let bytes = drain(&mut s, Duration::from_millis(600), Duration::from_secs(30));
+            let _ = s.shutdown(std::net::Shutdown::Both);
+            let _ = sender.join();
+            let segs = segments(&bytes, &|id| id);
+            let whole = segs.iter().filter(|x| x[0] == "whole").count();
+            let interrupted = whole < n;
+            // keep the event small: whole frames are summarised by the recorder's parser already
+            emit(kind, "write_timeout_many_small_responses", segs, interrupted, json!({"bytes": bytes.len(), "requests": n, "response_len": len, "whole": whole}), &mut out);
+        }
+    }
     // WebSocket server: concurrent off-reader responses and pushed notifies; each message one whole frame
     {
         let listener = rt.block_on(WebSocketServer::listen("127.0.0.1:0")).unwrap();
